@@ -13,12 +13,16 @@ CONSTANTS Clients,          \* client names; a client's side string is its name
           MaxSend,          \* [Clients -> Nat] send_message calls per client
           MaxDrops,         \* [Clients -> Nat] connection losses per client
           AllowClose,       \* clients whose application may call close()
+          MaxHelper,        \* input-helper calls (total)
+          KnownErrs,        \* internal-error signatures listed in known_findings.json (reported, not re-alarmed)
           MaxDup,           \* duplicated message deliveries (total)
           MaxSwap,          \* reorderings of adjacent message frames (total)
           MaxInject,        \* messages added by an outsider / fabricated by the server (total)
           MaxTamper,        \* in-flight message frames modified by the server (total)
           InjectSet,        \* set of [side, phase, body] an outsider may add
-          LateFrames,       \* BOOLEAN: frames already buffered are still delivered after RC.stop()
+          LateFrames,       \* BOOLEAN: frames that arrived in the same read as the frame whose handler called close()
+                            \*          are still delivered after RC.stop() (Autobahn keeps parsing its buffer)
+          ReentKinds,       \* event kinds whose delegate callback may call close() re-entrantly
           WelcomeErr,       \* BOOLEAN: the server may greet with welcome{error}
           ConnFails,        \* BOOLEAN: the very first connection attempt may fail
           MaxCloseAt        \* close() may be called while fewer than this many env steps ... (unused: 0)
@@ -33,7 +37,7 @@ Init ==
   /\ cs  = [c \in Clients |-> ClientInit(c, Mode[c], AppId[c])]
   /\ srv = SrvInit
   /\ net = [c \in Clients |-> DownConn]
-  /\ bud = [drops |-> MaxDrops, dup |-> MaxDup, swap |-> MaxSwap, inject |-> MaxInject,
+  /\ bud = [drops |-> MaxDrops, helper |-> MaxHelper, dup |-> MaxDup, swap |-> MaxSwap, inject |-> MaxInject,
             tamper |-> MaxTamper, sends |-> [c \in Clients |-> 0], dead |-> [c \in Clients |-> FALSE],
             closeCalled |-> [c \in Clients |-> FALSE], codeCalls |-> [c \in Clients |-> 0],
             cause |-> [c \in Clients |-> "-"], peerSeen |-> [c \in Clients |-> FALSE], seenAtCause |-> [c \in Clients |-> FALSE],
@@ -42,7 +46,13 @@ Init ==
 
 \* after a client cascade: frames it transmitted go onto its connection, towards the server
 \* RC.stop() on a live connection = transport.loseConnection(): the connection is "closing"
-Flush(n, c, cl) == IF n[c].up THEN [n EXCEPT ![c].c2s = @ \o cl.tx, ![c].closing = @ \/ cl.stopping] ELSE n
+\* If the stop happened inside the handler of a frame (re-entrant close), whatever else was already
+\* in the read buffer (here: everything still queued) will be delivered all the same.
+Flush(n, c, cl) == IF n[c].up
+                   THEN [n EXCEPT ![c].c2s = @ \o cl.tx, ![c].closing = @ \/ cl.stopping,
+                                  ![c].late = IF ~n[c].closing /\ cl.stopping /\ cl.reentFired /\ ~cs[c].reentFired /\ LateFrames
+                                              THEN Len(n[c].s2c) ELSE @]
+                   ELSE n
 Clean(cl) == [cl EXCEPT !.tx = <<>>]
 
 \* apply a cascade to client c: frames pushed on an empty stack
@@ -57,7 +67,14 @@ ApiStep(c, frames) ==
   /\ net' = Flush(net, c, cl1)
 
 \* ---------------------------------------------------------------- application -------------------
-CanApi(c) == ~bud.closeCalled[c]
+CanApi(c) == ~bud.closeCalled[c] /\ ~cs[c].reentFired
+
+\* the application arms the handler of one event kind to call close() from inside the callback
+ArmClose(c, k) ==
+  /\ CanApi(c) /\ c \in AllowClose /\ cs[c].mode = "delegated" /\ cs[c].reent = "-" /\ k \in ReentKinds
+  /\ cs' = [cs EXCEPT ![c].reent = k]
+  /\ lastAct' = Act("ArmClose", c, k, "-")
+  /\ UNCHANGED <<srv, net, bud>>
 
 \* Boss.set_code: validate_code (KeyFormatError) BEFORE the only-one-code test
 AppSetCode(c, code) ==
@@ -99,14 +116,15 @@ HelperCalls(c) == {<<"refresh_nameplates", "-">>, <<"get_nameplate_completions",
                   \cup {<<"choose_nameplate", code[1]>> : code \in CodeChoices[c]}
                   \cup {<<"choose_words", code[2]>> : code \in CodeChoices[c]}
 AppHelper(c, h) ==
-  /\ CanApi(c) /\ cs[c].helper /\ cs[c].st.I # "S4_done"
+  /\ CanApi(c) /\ cs[c].helper /\ bud.helper > 0
   /\ LET frames == IF h[1] = "choose_nameplate"
                    THEN IF ValidNameplate(h[2]) THEN <<In("I", "_choose_nameplate", Args(h[2], "-", NoBody))>>
                         ELSE <<Call("API", "raise", Args("doc:KeyFormatError", "-", NoBody))>>
                    ELSE <<In("I", h[1], Args(h[2], "-", NoBody))>> IN
      ApiStep(c, frames)
   /\ lastAct' = Act("AppHelper", c, h[1], h[2])
-  /\ UNCHANGED <<srv, bud>>
+  /\ bud' = [bud EXCEPT !.helper = @ - 1]
+  /\ UNCHANGED srv
 
 AppSend(c) ==
   /\ CanApi(c) /\ bud.sends[c] < MaxSend[c]
@@ -117,7 +135,7 @@ AppSend(c) ==
 
 \* _DeferredWormhole.close(): calls Boss.close() unless closed() was already delivered
 AppClose(c) ==
-  /\ ~bud.closeCalled[c] /\ c \in AllowClose
+  /\ ~bud.closeCalled[c] /\ c \in AllowClose /\ ~cs[c].reentFired /\ cs[c].reent = "-"
   /\ IF cs[c].mode = "deferred" /\ cs[c].closedCalls > 0
      THEN cs' = cs /\ net' = net
      ELSE ApiStep(c, <<In("B", "close", NoArgs)>>)
@@ -202,9 +220,9 @@ RxFrames(fr) ==
 
 DeliverFrame(c, late) ==
   /\ net[c].up /\ net[c].s2c # <<>>
-  /\ IF late THEN net[c].closing /\ LateFrames ELSE ~net[c].closing
+  /\ IF late THEN net[c].closing /\ net[c].late > 0 ELSE ~net[c].closing
   /\ LET fr == Head(net[c].s2c)
-         n1 == [net EXCEPT ![c].s2c = Tail(@)] IN
+         n1 == [net EXCEPT ![c].s2c = Tail(@), ![c].late = IF late THEN @ - 1 ELSE @] IN
      ClientStep(c, cs[c], RxFrames(fr), TRUE, n1)
   /\ lastAct' = Act(IF late THEN "LateDeliver" ELSE "Deliver", c, Head(net[c].s2c).t, Head(net[c].s2c).y)
   /\ LET fr == Head(net[c].s2c)
@@ -265,6 +283,7 @@ Next ==
   \/ \E c \in Clients :
         \/ \E code \in CodeChoices[c] : AppSetCode(c, code)
         \/ AppAllocate(c) \/ AppInput(c) \/ AppSend(c) \/ AppClose(c)
+        \/ \E k \in ReentKinds : ArmClose(c, k)
         \/ \E h \in HelperCalls(c) : AppHelper(c, h)
         \/ \E w \in BOOLEAN : ConnOpen(c, w)
         \/ ConnFail(c) \/ Drop(c) \/ CloseDone(c) \/ Serve(c)
@@ -289,9 +308,15 @@ Closed(c) == CountOf(Ev(c), "closed") > 0
 ClosedResult(c) == KindsOf(Ev(c), "closed")[1].v
 CleanCfg == MaxSwap = 0 /\ MaxInject = 0 /\ MaxTamper = 0 /\ MaxDup = 0
 
+\* a re-entrant close() is an application close: cause "app" unless an error trigger came first
+CauseOf(c) == IF bud.cause[c] = "-" /\ cs[c].reentFired THEN "app" ELSE bud.cause[c]
+CloseAsked(c) == bud.closeCalled[c] \/ cs[c].reentFired
+
 \* C14: no state machine receives an input it has no transition for, no assertion fires,
 \*      and close never reports anything but a documented verdict
-NoInternalError == \A c \in Clients : cs[c].errs = <<>>
+NoInternalError == \A c \in Clients : \A i \in 1..Len(cs[c].errs) : cs[c].errs[i] \in KnownErrs
+\* enumeration aid: print every internal error reached (used with CONSTRAINT, never fails)
+ReportErrs == \A c \in Clients : cs[c].errs = <<>> \/ PrintT(<<"ERR", cs[c].errs, lastAct.a>>)
 DocumentedVerdict == \A c \in Clients : DocumentedVerdictEv(Ev(c))
 
 \* C18: at most once each, causal order
@@ -308,7 +333,7 @@ NothingAfter == \A c \in Clients : NothingAfterClosed(Ev(c))
 VerdictRight == \A c \in Clients : (Closed(c) /\ ClosedResult(c) \in Verdicts) =>
     LET v == ClosedResult(c) IN
     /\ (v = "happy" => bud.peerSeen[c])
-    /\ (v = "LonelyError" => bud.cause[c] = "app" /\ (CleanCfg => ~bud.seenAtCause[c]))
+    /\ (v = "LonelyError" => CauseOf(c) = "app" /\ ((CleanCfg /\ ~cs[c].reentFired) => ~bud.seenAtCause[c]))
     /\ (v = "WrongPasswordError" => bud.badSeen[c])
     /\ (v = "ServerError" => bud.srvErrSeen[c])
     /\ (v = "WelcomeError" => bud.welErrSeen[c])
@@ -333,5 +358,5 @@ NoForgery == InOrderOnce /\ \A c \in Clients : Cardinality(Clients) = 2 =>
     \A i \in 1..CountOf(Ev(c), "versions") : ValuesOf(Ev(c), "versions")[i] = "ver:" \o Peer(c)
 
 \* liveness (checked only on the smallest constants, under FairSpec)
-CloseCompletes == \A c \in Clients : (bud.closeCalled[c] /\ ~bud.dead[c]) ~> Closed(c)
+CloseCompletes == \A c \in Clients : (CloseAsked(c) /\ ~bud.dead[c]) ~> Closed(c)
 ====
